@@ -124,7 +124,7 @@ pub fn exec_file_here(f: &ReplayFile, mode: &str, trace: bool) -> ExecOut {
 }
 
 pub const EXEC_TIMEOUT: Duration = Duration::from_secs(300);
-pub const EXEC_VMEM_KB: u64 = 4_000_000;
+pub const EXEC_VMEM_KB: u64 = 40_000_000; // address space, not memory: simulated threads may have 256 MiB stacks
 
 /// Execute a replay file in a fresh child process.
 pub fn exec_file_fresh(path: &str, mode: &str) -> Result<ExecOut, String> {
